@@ -13,7 +13,7 @@ def check(ctx):
     rep.analysed["functions_returning_guard"] = sorted(lr.returns_guard.values())
     E = [b.id for b in prog.bodies.values() if b.file.endswith(("defs/namespace.rs", "defs/reflection.rs")) and b.rec.get("vis") == "Public"]
     rep.floor("public namespace / reflection queries", len(E), 25)
-    pr = panic.PanicRule(ctx)
+    pr = panic.PanicRule(ctx, parsed_timestamps_only=True)
     reach, nsites = pr.run(E, rep)
     rep.assume("A4: dashmap 6.1 locking is as documented (per-shard RwLock; a guard holds its shard lock until dropped; get/contains_key/insert take it)")
     rep.note("Not decided: that answers are equal as values regardless of history (cached vectors come out of HashSet iteration; equality as sets is a runtime fact).")
